@@ -1126,6 +1126,7 @@ theorem exec_inv {w w' : World} {op : Op} {out : Out} (h : Inv w.s) (he : w.exec
       · cases he; exact h
     | scale s q => cases he; exact h
     | empty s => cases he; exact h
+    | removeNegatives s => cases he; exact h
     | readAgg s d V =>
       simp only [Except.map] at he
       split at he
@@ -1941,6 +1942,7 @@ theorem exec_vvalid {Vf : VFun} {w w' : World} {op : Op} {out : Out} (h : Inv w.
       · cases he; exact hv
     | scale s q => cases he; exact vvalid_of_vcs hv rfl
     | empty s => cases he; exact vvalid_of_vcs hv rfl
+    | removeNegatives s => cases he; exact vvalid_of_vcs hv rfl
     | readAgg s d V =>
       simp only [Except.map, World.readAgg] at he
       split at he
